@@ -29,4 +29,7 @@ pub fn usize_partition_point_lt(s: &[usize], bound: usize) -> (r: usize)
 { s.partition_point(|&v| v < bound) }
 pub assume_specification [i8::signum] (x: i8) -> (r: i8)
     ensures r == (if x > 0 { 1i8 } else if x < 0 { -1i8 } else { 0i8 });
+// rule R26: a panic, seen from the caller: control does not come back
+#[verifier::external_body]
+pub fn diverge() ensures false { panic!() }
 // ===== end prelude/std_assumed.rs =====
